@@ -67,7 +67,7 @@ def build_harness(libdir, variant="plain"):
         for s in srcs:
             o = os.path.join(odir, os.path.basename(s) + ".o")
             objs.append(o)
-            procs.append(subprocess.Popen(["g++"] + flags + ["-std=gnu++17", "-w", "-I" + REPO, "-I" + HARN, "-DSPQLIOS_VERIF", "-mavx2", "-mfma", "-c", s, "-o", o],
+            procs.append(subprocess.Popen(["g++"] + flags + ["-std=gnu++17", "-w", "-I" + REPO, "-I" + HARN, "-DSPQLIOS_VERIF", "-DNDEBUG", "-mavx2", "-mfma", "-c", s, "-o", o],
                                           stdout=subprocess.PIPE, stderr=subprocess.STDOUT, text=True))
         log = ""
         ok = True
